@@ -10,7 +10,7 @@
      cli_help_plain    the help text needs no escaping at all                  *)
 From Ink.Data Require Import Types.
 From Ink.Json Require Import JsonStd.
-From Ink.Cli Require Import Escape EscapeProofs.
+From Ink.Cli Require Import Escape EscapeProofs RenderProofs.
 From Ink.Gen Require Import CliGen.
 
 Lemma cli_arms_good : arms_ok cli_escape_arms = true.
@@ -29,3 +29,14 @@ Lemma cli_help_plain :
   forallb (fun c => negb (N.eqb c c_quote) && negb (N.eqb c c_bslash) && (32 <=? c) && (c <? 128))
           cli_help_msg = true.
 Proof. vm_compute. reflexivity. Qed.
+
+Lemma cli_help_plainb : forallb plainb cli_help_msg = true.
+Proof. vm_compute. reflexivity. Qed.
+
+(* every line of the -j protocol, as the source renders it now, reads back as
+   the one-key object carrying the intended payload *)
+Lemma rendered_lines_lemma f m : parse_json f (render_json m) = Some (msg_json m).
+Proof.
+  unfold render_json, msg_json, msg_payload. rewrite cli_divert_escaped.
+  apply rendered_line; [exact cli_arms_good|exact cli_help_plainb].
+Qed.
